@@ -105,6 +105,7 @@ class Partial:
         self.violation_count += 1
         if signature not in self.violations:
             self.violations[signature] = Violation(rule, signature, detail, witness)
+            _spool(rule, signature, detail, witness)
 
     def add_extra(self, key, n=1):
         self.extra[key] = self.extra.get(key, 0) + n
@@ -133,6 +134,36 @@ class Partial:
 
 
 _WORKER_MOD = None
+SPOOL_PATH = None  # set by run_property: violations are also appended here the moment they are found, so that a run that hits
+                   # its wall-clock budget (e.g. because the code under test no longer terminates) still reports them
+
+
+def _spool(rule, signature, detail, witness):
+    if not SPOOL_PATH:
+        return
+    try:
+        line = json.dumps(_jsonable({'rule': rule, 'signature': signature, 'detail': str(detail)[:2000], 'witness': witness})) + '\n'
+        fd = os.open(SPOOL_PATH, os.O_WRONLY | os.O_APPEND | os.O_CREAT, 0o644)
+        try:
+            os.write(fd, line.encode())
+        finally:
+            os.close(fd)
+    except Exception:
+        pass
+
+
+def _read_spool():
+    out = []
+    try:
+        with open(SPOOL_PATH) as f:
+            for line in f:
+                try:
+                    out.append(json.loads(line))
+                except ValueError:
+                    pass
+    except OSError:
+        pass
+    return out
 
 
 def _worker_init(modname, src):
@@ -192,6 +223,14 @@ def run_property(prop_id, modname, tier, seed, deadline_s=None):
     rnd = random.Random(seed)
     rnd.shuffle(units)  # VERIF_SEED only permutes the hand-out order; the explored set is the same.
     total = Partial()
+    global SPOOL_PATH
+    spool_dir = REPLAY_DIR if not os.environ.get('RSOCKET_SRC') else '/var/tmp/verif_scratch_replays'
+    os.makedirs(spool_dir, exist_ok=True)
+    SPOOL_PATH = os.path.join(spool_dir, '.spool-%s-%d.jsonl' % (prop_id, os.getpid()))
+    try:
+        os.unlink(SPOOL_PATH)
+    except OSError:
+        pass
     budget = deadline_s if deadline_s is not None else getattr(mod, 'BUDGET_S', {}).get(tier)
     harness_error = None
     cap_hit = False
@@ -239,6 +278,15 @@ def run_property(prop_id, modname, tier, seed, deadline_s=None):
         if pool is not None:
             pool.terminate()
             pool.join()
+    # violations found by units that never got to report back (budget hit while they were still running)
+    for rec in _read_spool():
+        if rec.get('signature') not in total.violations:
+            total.violations[rec['signature']] = Violation(rec.get('rule'), rec['signature'], rec.get('detail'), rec.get('witness'))
+    try:
+        os.unlink(SPOOL_PATH)
+    except OSError:
+        pass
+    SPOOL_PATH = None
     if harness_error:
         sys.stdout.write('HARNESS-ERROR property=%s\n%s\n' % (prop_id, harness_error))
         return 2
